@@ -1669,10 +1669,12 @@ package stackage
 //@ let sym := F_nodeConfig_sym[g]
 //@ let wot := padS(!bit(opt, 0x0004) && sym == "", opWord(opt, oc, sym))
 //@ let sep := sepS(opt, oc, wot, sym, F_nodeConfig_ljc[g])
+//@ hint[joined] joinS(str, sep) == JR(h, len(h) - 1, sep)
 //@ ensures[C02:stack.text] assembled == ite(r == nil, "", SRs(h))
 //@ modifies Mem_Str[fresh], Cell_strings_Builder[fresh], G_calls_len, G_calls_fn, G_calls_arg
 //@ loop 1 invariant 1 <= i && i <= len(h) && hdr(r) == old(hdr(r))
 //@ loop 1 invariant len(str) == 0 && cap(str) == 0 && arr(str) == 0 || fresh(arr(str)) && okslice(str, alloc)
+//@ loop 1 invariant forall a :: 0 <= a && a < old(alloc) ==> Mem_Str[a] == old(Mem_Str[a])
 //@ loop 1 invariant (len(str) == 0) == (JR(h, i - 1, sep) == "")
 //@ loop 1 invariant joinRow(Mem_Str[arr(str)], off(str), len(str), sep) == JR(h, i - 1, sep)
 
